@@ -117,6 +117,51 @@ def gen_fno_case(rng, d, cap, f32=False):
                 x=_nums(rng, B * _prod(shape) * Cin, -24, 24), shifts=gen_shifts(rng, shape))
 
 
+def _partner(n):
+    """the other grid size with the same number n//2+1 of half-spectrum bins"""
+    return n + 1 if n % 2 == 0 else n - 1
+
+
+def gen_history_case(rng, d, sub):
+    """ONE layer / FNO object evaluated on a sequence of grids (mixed parity, repeated sizes, refinements)"""
+    s0 = gen_shape(rng, d, {1: 16, 2: 16, 3: 12}[d])
+    if s0[-1] == 1:
+        s0[-1] = 2
+    last = lambda sh, n: sh[:-1] + [n]
+    dbl = last(s0, 2 * s0[-1])
+    other = [max(1, a + rng.choice([-1, 1])) for a in s0[:-1]] + [s0[-1]]
+    pool = [s0, last(s0, _partner(s0[-1])), s0, dbl, last(dbl, _partner(dbl[-1])), other, last(other, _partner(other[-1]))]
+    rng.shuffle(pool)
+    shapes = pool[:rng.randint(4, 6)]
+    if not any(a[:-1] == b[:-1] and a[-1] != b[-1] and a[-1] // 2 == b[-1] // 2 for a in shapes for b in shapes):
+        shapes.append(last(shapes[0], _partner(shapes[0][-1])))       # always one even/odd pair with equal spectrum shape
+    modes = gen_modes(rng, s0)
+    case = dict(kind="history", sub=sub, f32=0, shapes=shapes, B=1)
+    if sub == "layer":
+        C = rng.randint(1, 2)
+        case.update(C=C, layer=gen_layer_params(rng, modes, C))
+        cin = C
+    else:
+        Cin, C, Cout = rng.randint(1, 2), rng.randint(1, 2), rng.randint(1, 2)
+        layers = []
+        for _ in range(rng.randint(1, 2)):
+            pr = gen_layer_params(rng, gen_modes(rng, s0), C)
+            pr["kern"] = [k // 4 for k in pr["kern"]]
+            pr["act"] = rng.choice(ACTS)
+            layers.append(pr)
+        case.update(Cin=Cin, C=C, Cout=Cout, layers=layers, upW=_nums(rng, C * Cin, -16, 16), upb=_nums(rng, C, -16, 16),
+                    downW=_nums(rng, Cout * C, -16, 16), downb=_nums(rng, Cout, -16, 16))
+        cin = Cin
+    if sub == "layer" and d == 1 and rng.random() < 0.5:
+        # every call samples the same band-limited function: resolution relation between the calls
+        band = rng.randint(0, min(modes[0] - 1, (min(sh[0] for sh in shapes) - 1) // 2))
+        case["trig"] = dict(band=band, a=_nums(rng, (band + 1) * cin), b=_nums(rng, (band + 1) * cin))
+        case["steps"] = [dict(shifts=gen_shifts(rng, sh)) for sh in shapes]
+    else:
+        case["steps"] = [dict(x=_nums(rng, _prod(sh) * cin, -24, 24), shifts=gen_shifts(rng, sh)) for sh in shapes]
+    return case
+
+
 def gen_cases(ctx):
     rng = ctx.rng
     cases = []
@@ -139,6 +184,9 @@ def gen_cases(ctx):
         c["layer"]["modes"] = c["layer"]["modes"][:1]
         c["layer"]["kern"] = _nums(rng, 2 * c["layer"]["modes"][0] * c["C"])
         cases.append(c)
+    # histories: the same object on several grids
+    for _ in range(ctx.scale(36, 360)):
+        cases.append(gen_history_case(rng, rng.choice([1, 1, 1, 2, 2, 3]), rng.choice(["layer", "layer", "fno"])))
     cases.append(dict(kind="prog"))
     return cases
 
@@ -305,6 +353,90 @@ def fno_lines(case):
     return [f"{head} {lst(case['x'][b * n:(b + 1) * n], f)}" for b in range(B)]
 
 
+def build_fno(tp, torch, case, rd, cd):
+    from torchphysics.models.FNO import FNO
+    acts = {"tanh": torch.nn.Tanh, "relu": torch.nn.ReLU, "id": torch.nn.Identity}
+    Cin, C, Cout = case["Cin"], case["C"], case["Cout"]
+    Fs, Us = tp.spaces.Rn("f", Cin), tp.spaces.Rn("u", Cout)
+    ls = case["layers"]
+    net = FNO(Fs, Us, fourier_layers=len(ls), hidden_channels=C, fourier_modes=[list(l["modes"]) for l in ls],
+              activations=[acts[l["act"]]() for l in ls], skip_connections=[bool(l["skip"]) for l in ls],
+              linear_connections=[bool(l["lin"]) for l in ls], bias=[bool(l["bias"]) for l in ls])
+    if rd == torch.float64:
+        net = net.double()
+    net.channel_up_sampling.weight.data = _t(torch, case["upW"], (C, Cin), rd)
+    net.channel_up_sampling.bias.data = _t(torch, case["upb"], (C,), rd)
+    net.channel_down_sampling.weight.data = _t(torch, case["downW"], (Cout, C), rd)
+    net.channel_down_sampling.bias.data = _t(torch, case["downb"], (Cout,), rd)
+    for i, l in enumerate(ls):
+        set_layer(torch, net.fourier_sequential[2 * i], l, C, rd, cd)
+    return net, (lambda t: net(tp.spaces.Points(t, Fs)).as_tensor)
+
+
+def eval_history(case):
+    """one object, a sequence of calls on different grids; every call is checked like a single case"""
+    tp = common.use_repo()
+    import torch
+    from torchphysics.models.FNO import _FourierLayer
+    rd, cd = torch.float64, torch.complex128
+    sub = case["sub"]
+    cin = case["C"] if sub == "layer" else case["Cin"]
+    problems, outs, xs = [], [], []
+    name = "_FourierLayer" if sub == "layer" else "FNO"
+    with torch.no_grad():
+        try:
+            if sub == "layer":
+                f = build_layer(torch, _FourierLayer, case["layer"], case["C"], False)
+            else:
+                _, f = build_fno(tp, torch, case, rd, cd)
+        except Exception as e:
+            return dict(error=f"constructing: {type(e).__name__}: {e}"[:300], problems=problems, outs=outs, xs=xs)
+        for t, (sh, st) in enumerate(zip(case["shapes"], case["steps"])):
+            what = f"{name}, call {t + 1} of one object on the grids {case['shapes']}"
+            if "trig" in case:
+                x = trig_input(torch, case["trig"], 1, sh[0], cin, rd)
+            else:
+                x = _t(torch, st["x"], (1, *sh, cin), rd)
+            xs.append(x)
+            try:
+                pr = []
+                y = check_relations(torch, f, x, st["shifts"], TOL_ORACLE64, what, pr)
+                problems += pr
+                outs.append(y.detach().to(torch.float64) if tuple(y.shape[:-1]) == tuple(x.shape[:-1]) else None)
+            except Exception as e:
+                problems.append(f"{what}: raised on a valid input of grid {sh}: {type(e).__name__}: {e}"[:400])
+                outs.append(None)
+        if "trig" in case:
+            band = case["trig"]["band"]
+            for i, (si, yi) in enumerate(zip(case["shapes"], outs)):
+                for j, (sj, yj) in enumerate(zip(case["shapes"], outs)):
+                    if yi is None or yj is None or sj[0] <= si[0] or sj[0] % si[0] or not 2 * band < si[0]:
+                        continue
+                    r = sj[0] // si[0]
+                    err = float((yj[:, ::r, :] - yi).abs().max())
+                    scale = 1.0 + float(yi.abs().max())
+                    if not err <= TOL_ORACLE64 * scale:
+                        problems.append(f"{name}: not resolution-consistent within one object's history {case['shapes']}: band limit {band}, calls "
+                                        f"{i + 1} (grid {si[0]}) and {j + 1} (grid {sj[0]}) differ by {err:.3g} at the shared nodes")
+    return dict(outs=outs, xs=xs, problems=problems)
+
+
+def history_lines(case, res):
+    """one model request per call; the inputs are taken from the tensors that were fed to the implementation"""
+    lines = []
+    for sh, x in zip(case["shapes"], res["xs"]):
+        vals = lst([float(v) for v in x.flatten()], fbits)
+        if case["sub"] == "layer":
+            lines.append(f"layer {lst(sh)} {case['C']} {layer_tokens(case['layer'], case['C'], False)} {vals}")
+        else:
+            f = lambda v: fbits(v / DEN)
+            C = case["C"]
+            lines.append(f"fno {lst(sh)} {case['Cin']} {C} {case['Cout']} {lst(case['upW'], f)} {lst(case['upb'], f)} {len(case['layers'])} "
+                         + " ".join(layer_tokens(l, C, True) for l in case["layers"])
+                         + f" {lst(case['downW'], f)} {lst(case['downb'], f)} {vals}")
+    return lines
+
+
 def eval_malformed(case):
     tp = common.use_repo()
     import torch
@@ -353,6 +485,9 @@ def evaluate(case):
         return eval_fno(case), ([] if case["f32"] else fno_lines(case))
     if k == "malformed":
         return eval_malformed(case), layer_lines(case)[:1]
+    if k == "history":
+        res = eval_history(case)
+        return res, history_lines(case, res)
     return dict(prog=eval_prog()), [f"prog {l} {s}" for l in (0, 1) for s in (0, 1)]
 
 
@@ -367,7 +502,7 @@ def regime(case):
 
 def key_of(case):
     c = {k: v for k, v in case.items() if k not in ("x", "res")}
-    return f"{case['kind']}:{case.get('shape')}:{zlib.crc32(repr(sorted(case.items(), key=str)).encode())}"
+    return f"{case['kind']}:{case.get('shape', case.get('shapes'))}:{zlib.crc32(repr(sorted(case.items(), key=str)).encode())}"
 
 
 def judge(rep, case, res, replies):
@@ -385,6 +520,37 @@ def judge(rep, case, res, replies):
             if bool(written) == model_clean:
                 rep.disagree("buffers written by the forward pass: drivers/C20.lean `prog` vs parameters/input compared bit-wise",
                              dict(case, lin=lin, skip=skip), written, reply)
+        return
+    if kind == "history":
+        name = "_FourierLayer" if case["sub"] == "layer" else "FNO"
+        rep.count(f"history:{case['sub']}:d={len(case['shapes'][0])}{':trig' if 'trig' in case else ''}")
+        rep.count("history-calls", len(case["shapes"]))
+        pairs = sum(1 for i, a in enumerate(case["shapes"]) for b in case["shapes"][i + 1:]
+                    if a[:-1] == b[:-1] and a[-1] != b[-1] and a[-1] // 2 == b[-1] // 2)
+        rep.count("history:even-odd-pairs-with-equal-spectrum-shape", pairs)
+        for pr in res["problems"]:
+            rep.fail(pr, case)
+        if "error" in res:
+            rep.fail(f"{name} raised on a valid configuration: {res['error']}", case)
+            return
+        for t, (y, reply) in enumerate(zip(res["outs"], replies)):
+            if y is None:
+                continue
+            if reply.startswith(("err", "bad-op")):
+                rep.disagree(f"drivers/C20.lean refused call {t + 1} of a history the implementation accepts", case, "accepted", reply[:80])
+                continue
+            toks = reply.split()
+            if len(toks) != y.numel():
+                rep.disagree(f"output size of call {t + 1} of a history: drivers/C20.lean vs {name}", case, list(y.shape), len(toks))
+                continue
+            m = torch.tensor([unfbits(v) for v in toks], dtype=torch.float64).reshape(y.shape)
+            err = float((m - y).abs().max())
+            scale = 1.0 + float(y.abs().max())
+            if not err <= TOL_MODEL * scale:
+                rep.disagree(f"values of call {t + 1} (grid {case['shapes'][t]}) in a history of one {name} object: the stateless Lean model "
+                             f"(drivers/C20.lean) vs the implementation, tolerance {TOL_MODEL}*(1+max|y|)", case,
+                             dict(max_abs_diff=err), dict(first_model_values=[float(v) for v in m.flatten()[:3]]))
+            rep.hist["max_model_err"] = max(rep.hist.get("max_model_err", 0.0), err / scale)
         return
     if kind == "malformed":
         rep.count("malformed")
@@ -430,7 +596,9 @@ def judge(rep, case, res, replies):
 def run(ctx, rep, cases=None):
     rep.rule = ("seeded Fourier-layer / FNO configurations in 1-3 spatial dimensions (grid sizes, truncating / exact / zero-padding mode "
                 "counts per axis, channels, linear/skip/bias, batch) with dyadic data; non-trivial = grid with >= 2 nodes and a tested shift "
-                "that is not a multiple of the axis length; distinct = distinct (configuration, data) digests")
+                "that is not a multiple of the axis length; histories = ONE layer / FNO object called on a sequence of 4-7 grids (even/odd pairs with the "
+                "same half-spectrum shape, repeats, refinements; every call compared with the stateless model and checked with the shift relations, "
+                "band-limited histories with the resolution relation between calls); distinct = distinct (configuration, data) digests")
     cases = cases if cases is not None else gen_cases(ctx)
     results, lines, spans = [], [], []
     for c in cases:
@@ -442,7 +610,7 @@ def run(ctx, rep, cases=None):
         replies = run_driver_parallel(lines)
     except common.DriverFailure:
         for c, r in zip(cases, results):
-            if c["kind"] in ("layer", "fno"):
+            if c["kind"] in ("layer", "fno", "history"):
                 judge(rep, c, r, [])
         rep.disagreements.clear()
         raise
@@ -450,21 +618,28 @@ def run(ctx, rep, cases=None):
         nontrivial = c["kind"] in ("layer", "fno") and _prod(c["shape"]) >= 2 and any(
             (sh[0] >= 0 and sh[1] % c["shape"][sh[0]] != 0) or (sh[0] < 0 and any(s % N for s, N in zip(sh[1:], c["shape"])))
             for sh in c["shifts"])
+        if c["kind"] == "history":
+            nontrivial = True
         sample = None
+        if c["kind"] == "history" and r.get("outs") and r["outs"][0] is not None and b > a:
+            sample = dict(kind="history", sub=c["sub"], grids=c["shapes"], implementation_first_values=[float(v) for v in r["outs"][0].flatten()[:3]],
+                          model_first_values=[unfbits(t) for t in replies[a].split()[:3]] if not replies[a].startswith(("err", "bad")) else None)
         if c["kind"] in ("layer", "fno") and "out" in r:
             sample = dict(kind=c["kind"], shape=c["shape"], modes=(c["layer"] if c["kind"] == "layer" else c["layers"][0])["modes"],
                           f32=c["f32"], implementation_first_values=[float(v) for v in r["out"].flatten()[:3]],
                           model_first_values=[unfbits(t) for t in replies[a].split()[:3]] if b > a and not replies[a].startswith(("err", "bad")) else None)
-        rep.case(key_of(c), nontrivial, sample=sample, kind=f"{c['kind']}{len(c.get('shape', []))}{c.get('f32', 0)}")
+        rep.case(key_of(c), nontrivial, sample=sample, kind=f"{c['kind']}{c.get('sub', '')}{len(c.get('shape', []))}{c.get('f32', 0)}")
         judge(rep, c, r, replies[a:b])
-    rep.traces_validated = sum(1 for c in cases if c["kind"] in ("layer", "fno") and not c["f32"])
+    rep.traces_validated = sum(len(c["shapes"]) if c["kind"] == "history" else 1 for c in cases
+                               if c["kind"] in ("layer", "fno", "history") and not c.get("f32"))
 
 
 def replay(ctx, obj):
     rep = common.Report(ctx)
     inp = obj.get("failing_input") or obj.get("first")
     case = {k: v for k, v in inp["input"].items() if k in
-            ("kind", "f32", "shape", "C", "B", "layer", "x", "shifts", "res", "Cin", "Cout", "layers", "upW", "upb", "downW", "downb")}
+            ("kind", "f32", "shape", "C", "B", "layer", "x", "shifts", "res", "Cin", "Cout", "layers", "upW", "upb", "downW", "downb",
+             "sub", "shapes", "steps", "trig")}
     lean = common.lean_check("C20")
     run(ctx, rep, [case])
     return common.finish(ctx, rep, lean)
